@@ -112,6 +112,9 @@ type service struct {
 	// then exit.
 	done chan struct{}
 
+	// stopped is closed when stop() has finished (server side; nil for a client).
+	stopped chan struct{}
+
 	// Size of the in and out buffers. This affects the maximum payload size. If
 	// not set, the defaultBufferSize (1024*256) is used.
 	bufferSize int64
@@ -226,6 +229,9 @@ func (svc *service) stop() {
 	doit := atomic.CompareAndSwapInt64(&svc.closed, 0, 1)
 	if !doit {
 		return
+	}
+	if svc.stopped != nil {
+		defer close(svc.stopped)
 	}
 	defer verifStopped(svc.conn)
 
